@@ -196,14 +196,14 @@ func (c *sivCase) sivMutations(r *rand.Rand, ct, pt, ad []byte, sel int, full bo
 		// every single-bit flip of small ciphertexts; a stride sample plus the SIV's special bits otherwise
 		for b := 0; b < bits; b++ {
 			special := b < 8*pl || b == 8*pl+64 || b == 8*pl+96 || b == 8*pl+63 || b == 8*pl+127 || b == 8*pl+128 || b >= bits-8
-			if (full && len(ct) <= pl+48) || special || b%13 == sel%13 {
+			if (full && len(ct) <= pl+48) || special || b%29 == sel%29 {
 				c.dec("flip", flip(ct, b), ad)
 			}
 		}
 	}
 	if full || sel%4 == 1 {
 		for cut := 0; cut < len(ct); cut++ { // every truncation (front and back)
-			if full || cut <= pl+17 || cut >= len(ct)-2 || cut%7 == sel%7 {
+			if full || cut <= pl+17 && (cut+sel)%2 == 0 || cut == pl+15 || cut == pl+16 || cut >= len(ct)-2 || cut%11 == sel%11 {
 				c.dec("trunc", ct[:cut], ad)
 			}
 			if full && cut > 0 && cut <= pl+17 || cut == 1 || cut == pl || cut == pl+16 {
@@ -266,7 +266,7 @@ func (c *sivCase) sivMutations(r *rand.Rand, ct, pt, ad []byte, sel int, full bo
 		}
 		// byte strings of every length 0..minimum+2 (zero / random / valid-prefix content)
 		for n := 0; n <= pl+18; n++ {
-			if full || n <= 1 || n >= pl+15 || n == pl || n%5 == sel%5 {
+			if full || n <= 1 || n >= pl+15 || n == pl || n%7 == sel%7 {
 				c.dec("garbage0", make([]byte, n), ad)
 				c.dec("garbageR", vt.Bytes(r, n), ad)
 				g := vt.Bytes(r, n)
@@ -334,7 +334,7 @@ func runSIV(w *vt.Writer, full bool) {
 			}
 			reps := 2
 			if full {
-				reps = 6
+				reps = 4
 			}
 			for k := 0; k < reps; k++ {
 				plans = append(plans, one(route, v, ids[(n+seed)%len(ids)], randKey64(r, n+seed)))
@@ -385,7 +385,10 @@ func runSIV(w *vt.Writer, full bool) {
 		for li, n := range ptLens(full, ci, r) {
 			var ads []int
 			for ai, a := range adLens {
-				if full && n <= 80 || (ai+li+ci)%7 == 0 || (n <= 34 && (ai+li)%4 == 0) {
+				switch {
+				case full && n <= 80 && (li+ci)%3 == 0: // thorough: the whole AD set on a third of (key, length) pairs
+					ads = append(ads, a)
+				case (ai+li+ci)%7 == 0, n <= 34 && (ai+li)%4 == 0:
 					ads = append(ads, a)
 				}
 			}
@@ -400,8 +403,13 @@ func runSIV(w *vt.Writer, full bool) {
 					continue
 				}
 				c.dec("exact", ct, ad)
-				if n <= 80 && (full || (li+ai+ci)%3 == 0) {
-					c.sivMutations(r, ct, pt, ad, li+ai+ci+seed, full && n <= 40 && a <= 33)
+				if n <= 80 && (li+ai+ci)%3 == 0 {
+					// thorough: ALL mutations of every class (every bit flip, every truncation...) on small cases
+					all := full && n <= 33 && a <= 17 && (li+ai)%2 == 0
+					c.sivMutations(r, ct, pt, ad, li+ai+ci+seed, all)
+					if full && !all {
+						c.sivMutations(r, ct, pt, ad, li+ai+ci+seed+1, false)
+					}
 				}
 				if multi && ai == 0 {
 					for oi, o := range others {
@@ -514,6 +522,14 @@ type kwpCase struct {
 	w   *vt.Writer
 }
 
+// second renders the output of the repeated call: "=" when byte-identical to a long first output.
+func second(o1, o2 []byte) string {
+	if len(o1) > 64 && string(o1) == string(o2) {
+		return "="
+	}
+	return vt.Hex(o2)
+}
+
 func (c *kwpCase) wrap(kind string, pt []byte, deep bool) []byte {
 	var o1, o2 []byte
 	var e1, e2 error
@@ -522,7 +538,7 @@ func (c *kwpCase) wrap(kind string, pt []byte, deep bool) []byte {
 		o2, e2 = c.k.Wrap(clone(pt))
 	})
 	e := vt.Ev{"ev": "wrap", "route": "subtle", "kind": kind, "key": vt.Hex(c.key), "pt": vt.Hex(pt), "deep": deep,
-		"ok": e1 == nil && e2 == nil && !p, "out": vt.Hex(o1), "out2": vt.Hex(o2), "panic": p}
+		"ok": e1 == nil && e2 == nil && !p, "out": vt.Hex(o1), "out2": second(o1, o2), "panic": p}
 	if p {
 		e["panicVal"] = fmt.Sprint(pv)
 	}
@@ -625,14 +641,51 @@ func (c *kwpCase) forgeries(r *rand.Rand, n int, full bool) {
 	c.unwrap("forge-rfc3394-iv", forgeW(c.key, []byte{0xa6, 0xa6, 0xa6, 0xa6, 0xa6, 0xa6, 0xa6, 0xa6}, p), deep)
 }
 
+// chunkI/chunkN split the thorough KWP run into several traces (payload length n belongs to chunk n % chunkN;
+// everything that does not range over all lengths is in chunk 0).
+var chunkI, chunkN = 0, 1
+
 func runKWP(w *vt.Writer, full bool) {
-	r := vt.Rng(81)
+	r := vt.Rng(81 + int64(chunkI)*1000)
 	seed := int(vt.Seed())
+	if chunkI != 0 {
+		kwpLengths(w, r, seed, full)
+		return
+	}
 	for _, kl := range []int{0, 15, 17, 24, 31, 33, 48, 64} {
 		var err error
 		p, _ := vt.Try(func() { _, err = ksubtle.NewKWP(vt.Bytes(r, kl)) })
 		w.Emit(vt.Ev{"ev": "construct", "route": "subtle", "keyLen": kl, "err": err != nil, "panic": p})
 	}
+	kwpLengths(w, r, seed, full)
+	for _, kl := range []int{16, 32} {
+		key := vt.Bytes(r, kl)
+		k, err := ksubtle.NewKWP(key)
+		if err != nil {
+			vt.Fatal("NewKWP(%d): %v", kl, err)
+		}
+		c := &kwpCase{key, k, w}
+		{
+			// byte strings of every length 0..40 and around the upper limit
+			for n := 0; n <= 8216; n++ {
+				if n <= 41 || n >= 8190 || full && n%8 != 0 && n%(8*13) < 8 || !full && n%8 != 0 && r.Intn(200) == 0 {
+					c.unwrap("garbage", vt.Bytes(r, n), false)
+					if n <= 41 || n >= 8190 {
+						c.unwrap("garbage0", make([]byte, n), false)
+					}
+				}
+			}
+			// forged wrappings: length field, padding and ICV manipulations behind a correct W
+			for _, n := range []int{1, 7, 8, 9, 15, 16, 17, 20, 23, 24, 25, 31, 32, 33, 63, 64, 65, 255, 256, 8184, 8185, 8191, 8192, 8193, 8199, 8200} {
+				c.forgeries(r, n, full || n <= 33)
+			}
+		}
+	}
+	wycheproofKWP(w)
+}
+
+// kwpLengths wraps payloads of the length plan of this chunk and unwraps exact, corrupted and mis-sized forms.
+func kwpLengths(w *vt.Writer, r *rand.Rand, seed int, full bool) {
 	for ki, kl := range []int{16, 32} {
 		reps := 1
 		if full {
@@ -654,11 +707,17 @@ func runKWP(w *vt.Writer, full bool) {
 			for n := 0; n <= 8200; n++ {
 				switch {
 				case n <= dense, n >= 8185 && n <= 8200, n >= 509 && n <= 530:
-					lens = append(lens, n)
+					if chunkI == 0 {
+						lens = append(lens, n)
+					}
 				case full && rep == 0:
-					lens = append(lens, n)
+					if n%chunkN == chunkI {
+						lens = append(lens, n)
+					}
 				case n%8 == (seed+ki)%8 && n%(8*37) < 8, n%1024 <= 1 || n%1024 == 1023:
-					lens = append(lens, n)
+					if chunkI == 0 {
+						lens = append(lens, n)
+					}
 				case !full && r.Intn(60) == 0:
 					lens = append(lens, n)
 				}
@@ -700,22 +759,8 @@ func runKWP(w *vt.Writer, full bool) {
 					}
 				}
 			}
-			// byte strings of every length 0..40 and around the upper limit
-			for n := 0; n <= 8216; n++ {
-				if n <= 41 || n >= 8190 || full && n%8 != 0 && n%(8*13) < 8 || !full && n%8 != 0 && r.Intn(200) == 0 {
-					c.unwrap("garbage", vt.Bytes(r, n), false)
-					if n <= 41 || n >= 8190 {
-						c.unwrap("garbage0", make([]byte, n), false)
-					}
-				}
-			}
-			// forged wrappings: length field, padding and ICV manipulations behind a correct W
-			for _, n := range []int{1, 7, 8, 9, 15, 16, 17, 20, 23, 24, 25, 31, 32, 33, 63, 64, 65, 255, 256, 8184, 8185, 8191, 8192, 8193, 8199, 8200} {
-				c.forgeries(r, n, full || n <= 33)
-			}
 		}
 	}
-	wycheproofKWP(w)
 }
 
 func wycheproofKWP(w *vt.Writer) {
@@ -813,7 +858,11 @@ func main() {
 	out := flag.String("out", "", "trace file")
 	rp := flag.String("replay", "", "replay file")
 	part := flag.String("part", "siv", "siv | kwp")
+	chunk := flag.String("chunk", "0/1", "kwp only: i/N, the i-th of N traces")
 	flag.Parse()
+	if _, err := fmt.Sscanf(*chunk, "%d/%d", &chunkI, &chunkN); err != nil || chunkN < 1 || chunkI < 0 || chunkI >= chunkN {
+		vt.Fatal("bad -chunk %q", *chunk)
+	}
 	if *out == "" {
 		vt.Fatal("usage: c08 -part siv|kwp -out trace.ndjson [-replay file]")
 	}
